@@ -59,12 +59,21 @@ func permsOf(n int) []string {
 // the baseline run: every permutation for visits with at most four keys; reverse, rotate-by-one
 // and swap-first-two when some visit has more; and the two orders that differ from one visit to
 // the next when the site is visited at least twice with two or more keys.
-func modesFor(v *SiteVisits) []string {
+//
+// The reduced menu (thorough tier, designs outside the selection) is {reverse, altA}.
+func modesFor(v *SiteVisits, reduced bool) []string {
 	max, maxSmall, multi := v.MaxLen()
 	if max < 2 || v.Uncontrolled >= multi {
 		return nil
 	}
 	var out []string
+	if reduced {
+		out = append(out, "rev")
+		if multi >= 2 {
+			out = append(out, "altA")
+		}
+		return out
+	}
 	if maxSmall >= 2 {
 		for _, p := range permsOf(maxSmall) {
 			out = append(out, "p:"+p)
@@ -98,9 +107,20 @@ type mapOrder struct {
 	e     *Env
 	mu    sync.Mutex
 	sites map[string]*siteStat
+	seen  map[string]bool
 	stats struct {
 		baselines, notGenerated, deviations, pairs int
 	}
+}
+
+func (m *mapOrder) firstSeen(sig string) bool {
+	m.mu.Lock()
+	defer m.mu.Unlock()
+	if m.seen[sig] {
+		return false
+	}
+	m.seen[sig] = true
+	return true
 }
 
 type baseline struct {
@@ -168,7 +188,7 @@ type devJob struct {
 
 // jobsFor lists the deviations of one design: bound 1 (every reached site x its menu) and, when
 // pairs is set, bound 2 (every unordered pair of reached in-scope sites, both reversed).
-func jobsFor(b *baseline, pairs bool) []devJob {
+func jobsFor(b *baseline, pairs, reduced bool) []devJob {
 	var ids []string
 	for id := range b.run.Report {
 		ids = append(ids, id)
@@ -177,7 +197,7 @@ func jobsFor(b *baseline, pairs bool) []devJob {
 	var jobs []devJob
 	var scoped []string
 	for _, id := range ids {
-		modes := modesFor(b.run.Report[id])
+		modes := modesFor(b.run.Report[id], reduced)
 		for _, mode := range modes {
 			jobs = append(jobs, devJob{b, []Deviation{{id, mode}}})
 		}
@@ -261,7 +281,15 @@ func (m *mapOrder) runDeviation(j devJob) {
 	}
 	c.Outcome("differs under deviation in " + file)
 	classes := diffClasses(diff, api, svcs)
-	what := m.explain(d, ctl, diff)
+	what := ""
+	for _, class := range classes {
+		if m.firstSeen(m.signature(j.devs, class)) && what == "" {
+			what = m.explain(d, ctl, diff)
+		}
+	}
+	if what == "" {
+		what = fmt.Sprintf("design %s with %s: %s", d.Name, ctl, clip(strings.Join(diff, " "), 200))
+	}
 	for _, class := range classes {
 		class := class
 		devs := j.devs
@@ -312,12 +340,14 @@ func (m *mapOrder) explain(d *DesignRef, ctl string, diff []string) string {
 }
 
 // RunMapOrder is exploration 1.
-func RunMapOrder(c *core.Ctx, e *Env, designs []*DesignRef, pairDesigns map[string]bool) []*baseline {
-	m := &mapOrder{c: c, e: e, sites: map[string]*siteStat{}}
+// Designs in full get the complete deviation menu, the others the reduced one; designs in pairs
+// additionally get the bound-2 deviations.
+func RunMapOrder(c *core.Ctx, e *Env, designs []*DesignRef, full, pairDesigns map[string]bool) []*baseline {
+	m := &mapOrder{c: c, e: e, sites: map[string]*siteStat{}, seen: map[string]bool{}}
 	bases := m.runBaselines(designs)
 	var jobs []devJob
 	for _, b := range bases {
-		jobs = append(jobs, jobsFor(b, pairDesigns[b.d.Name])...)
+		jobs = append(jobs, jobsFor(b, pairDesigns[b.d.Name], !full[b.d.Name])...)
 	}
 	c.Note("map_order_deviations_planned", len(jobs))
 	var skipped int64
